@@ -135,6 +135,7 @@ def cases(tier):
     else:
         stores = list(Q.subsets(names[:4])) + [tuple(names)] + [tuple(names[:4]) + S for S in Q.subsets(names[4:]) if S]
     out = [("sem", backend, S, tier) for backend in ("sql", "kv") for S in stores]
+    out += [("wf", backend, S, tier) for backend in ("sql", "kv") for S in Q.subsets(Q.members(tier))]
     nf = len(_lists(tier))
     blk = 400
     for lo in range(0, nf, blk):
@@ -210,9 +211,37 @@ def may_match(f, ev):
 
 
 # ---------------------------------------------------------------------------------------------------
+_WF = {}
+
+
+def wf_lists(tier):
+    """well-formed language (the one C02 uses for completeness), thinned: here only soundness is judged"""
+    if tier not in _WF:
+        singles = Q.W_single(tier)
+        step = 7 if tier == "quick" else 2
+        out = [[f] for f in singles[::step]]
+        # every index plan x every kind of window, un-thinned: ids / authors / kinds / tags alone and in pairs with since, until, both, 0
+        fo = Q.field_options()
+        wins = [{"since": 20}, {"until": 20}, {"since": 11, "until": 29}, {"until": 0}, {"since": 0, "until": 15}, {"since": 21}, {"until": 10}, {"since": 31}]
+        for k in fo:
+            for v in fo[k]:
+                for w in wins:
+                    out.append([dict({k: v}, **w)])
+        for k1, k2 in (("authors", "kinds"), ("kinds", "#e"), ("ids", "kinds"), ("authors", "#p"), ("ids", "authors")):
+            for v1 in fo[k1][:3]:
+                for v2 in fo[k2][:3]:
+                    for w in wins[:5]:
+                        out.append([dict({k1: v1, k2: v2}, **w)])
+        out += [fl for fl in Q.W_multi(tier)][:: (3 if tier == "quick" else 1)]
+        seen = set()
+        _WF[tier] = [fl for fl in out if not (Q.fkey(fl) in seen or seen.add(Q.fkey(fl)))]
+    return _WF[tier]
+
+
 def run_sem(case):
-    _, backend, S, tier = case
-    uni = HU()
+    mode, backend, S, tier = case
+    wf = mode == "wf"
+    uni = Q.U1() if wf else HU()
     sess = seq.session(backend)
     Q.build_store(sess, S, uni)
     from .. import store as _store
@@ -223,8 +252,8 @@ def run_sem(case):
     viol = []
     n = 0
     nonempty = 0
-    cid = "%s|S=%s" % (backend, ",".join(S))
-    for filters in _lists(tier):
+    cid = "%s%s|S=%s" % ("wf|" if wf else "", backend, ",".join(S))
+    for filters in (wf_lists(tier) if wf else _lists(tier)):
         if sess.w.backend == "sql":
             del sess.w.sql.errors[:]
         frames, closed = sess.query(filters, raw=True)
@@ -248,7 +277,7 @@ def run_sem(case):
             if any(ev.get(k) != orig[k] for k in ("pubkey", "created_at", "kind", "tags", "content", "sig")):
                 viol.append({"case": cid, "clause": "only-accepted-events", "sig": "altered:%s|%s" % (ev["id"][:8], fk),
                              "detail": "served event %s differs from the accepted one | filters=%s" % (byid[ev["id"]], fk)})
-            if not any(may_match(f, orig) for f in filters):
+            if not any((Q.loose_matches({k: v for k, v in f.items() if k != "limit"}, orig) if wf else may_match(f, orig)) for f in filters):
                 viol.append({"case": cid, "clause": "matches-a-filter", "sig": "%s|%s" % (byid[ev["id"]], fk),
                              "detail": "returned %s matches no filter of %s | store={%s}" % (byid[ev["id"]], fk, ",".join(S))})
         if got_any:
@@ -258,8 +287,8 @@ def run_sem(case):
             viol.append({"case": cid, "clause": "engine-accepts-statement", "sig": "%s|%s" % (err[2][:40], fk),
                          "detail": "the engine rejected the statement built for %s: %s" % (fk, err[2])})
     return {"id": cid, "viol": viol, "outcome": None, "evals": n, "nontrivial": nonempty > 0, "desc": describe(case),
-            "extra": {"sem_req_with_results": nonempty, "sem_req": n},
-            "sample": {"mode": "sem", "backend": backend, "store": list(S), "filter_lists": n, "with_results": nonempty}}
+            "extra": {("wf_req_with_results" if wf else "sem_req_with_results"): nonempty, ("wf_req" if wf else "sem_req"): n},
+            "sample": {"mode": mode, "backend": backend, "store": list(S), "filter_lists": n, "with_results": nonempty}}
 
 
 # ---------------------------------------------------------------------------------------------------
@@ -451,7 +480,7 @@ def run_text(case):
 
 
 def run_case(case):
-    if case[0] == "sem":
+    if case[0] in ("sem", "wf"):
         return run_sem(case)
     return run_text(case)
 
@@ -463,11 +492,13 @@ def coverage(tier, agg):
                 "(lists, dicts, numbers out of range, booleans, null) at every filter position (ids, authors, kinds, since, until, limit, search, "
                 "#x name, #x value, tags, unknown key): each alone; %s of them before and after a benign filter; all pairs of every %s "
                 "plus a benign filter; 16 tag-carrying filters alone, in all ordered pairs and %s ordered triples of the first 7; non-object filters. "
-                "sem cases: store x all lists through the real REQ path, every returned event must be a stored one, verbatim, and satisfy a "
+                "wf cases: every subset of the regular universe U1 x %d well-formed filter lists (every index plan x every kind of time window incl. "
+                "until 0, a stride of C02's single-filter language, multi-filter REQs): every returned event is a stored one and matches a filter of the REQ "
+                "under NIP-01 (window bounds inclusive). sem cases: store x all lists through the real REQ path, every returned event must be a stored one, verbatim, and satisfy a "
                 "permissive NIP-01 reading of at least one raw filter; SQL engine errors are violations. text cases: statement / generated code "
                 "skeleton equals that of the benign twin (SQLite, PostgreSQL branch, LMDB residual matcher) and every string literal has provenance." % (
                     len(_lists(tier)), len(STR_ALPHA), len(NONSTR), "each" if tier == "thorough" else "every 7th",
-                    "23rd" if tier == "thorough" else "97th", "all" if tier == "thorough" else "every 5th of the"),
+                    "23rd" if tier == "thorough" else "97th", "all" if tier == "thorough" else "every 5th of the", len(wf_lists(tier))),
         "backends": ["sql", "kv", "pg(text only)"],
     }
 
